@@ -130,6 +130,10 @@ class TypeEnv:
             t.ret = self._parse(m.group(1))
             t.params = [self._parse(a) for a in split_top(m.group(3))] if m.group(3).strip() not in ('', 'void') else []
             return T('ptr', to=t)
+        m = re.match(r'^(.*?)\s*\((\*|&|&&)\)\s*\[(\d*)\]$', s)
+        if m and self._balanced(m.group(1)):
+            arr = T('array', to=self._parse(m.group(1)), n=m.group(3))
+            return T('ptr', to=arr) if m.group(2) == '*' else T('ref', to=arr, rref=(m.group(2) == '&&'))
         if s.endswith('&&'):
             return T('ref', to=self._parse(s[:-2]), rref=True)
         if s.endswith('&'):
